@@ -373,6 +373,8 @@ class Taint:
             if d[0] == 'call' and 'q' in d[1]['callee'] and callee_q(d[1]).endswith('RangeInclusive::new') and d[1]['args'] and \
                     d[1]['args'][0]['k'] == 'const':
                 return d[1]['args'][0].get('int')
+            if d[0] == 'assign' and d[1]['rv']['k'] == 'use' and d[1]['rv']['op']['k'] == 'const' and d[1]['rv']['op'].get('prange'):
+                return d[1]['rv']['op']['prange'][0]        # a range of two literals, promoted to a constant (`(1..=64).contains(&x)`)
             if d[0] == 'assign' and d[1]['rv']['k'] == 'agg' and 'Range' in (d[1]['rv'].get('adt') or '') and d[1]['rv']['ops'] and \
                     d[1]['rv']['ops'][0]['k'] == 'const':
                 return d[1]['rv']['ops'][0].get('int')
@@ -838,6 +840,9 @@ class Taint:
                         aops = self.divisor_of(b, t) or aops
                     lv = [vlevel(self.op_level(b, o)) for o in aops]
                     if ak in ('Overflow(Shl)', 'Overflow(Shr)') and len(lv) == 2:
+                        lv = [0, lv[1]]
+                    if ak == 'BoundsCheck' and len(lv) == 2 and self.const_of(b, aops[1]) is None:
+                        # slice[i]: the hazard is in the index; a length the peer chose matters only for a fixed position
                         lv = [0, lv[1]]
                     if ak in ('DivisionByZero', 'RemainderByZero'):
                         pass
